@@ -7,16 +7,17 @@ let rec of_sx (s : M.sx) : Sexp.t = match s with
   | M.SA a -> Atom (implode a)
   | M.SL l -> List (List.map of_sx l)
 
-(* ev = (name (roots..) pay); cmd = (name (roots..) params chans) *)
+(* ev = (name (roots..) pay); cmd = (name (roots..) (param names..) (channel names..) events) *)
 let ev_ s = match list s with
   | [n; r; pay] -> { M.e_name = nat_ n; M.e_roots = list_ nat_ r; M.e_pay = nat_ pay }
   | _ -> failwith "ev"
 let item_ s = match list s with
-  | [Atom "cmd"; n; r; hp; hc; evs] ->
-      M.ICmd ({ M.c_name = nat_ n; M.c_roots = list_ nat_ r; M.c_params = bool_ hp; M.c_chans = bool_ hc }, list_ ev_ evs)
+  | [Atom "cmd"; n; r; ps; cs; evs] ->
+      M.ICmd ({ M.c_name = nat_ n; M.c_roots = list_ nat_ r; M.c_pnames = list_ nat_ ps; M.c_cnames = list_ nat_ cs }, list_ ev_ evs)
   | [Atom "fn"; evs] -> M.IFn (list_ ev_ evs)
-  | [Atom "type"; n; deps; body; en] ->
-      M.IType { M.t_name = nat_ n; M.t_deps = list_ nat_ deps; M.t_body = nat_ body; M.t_enum = bool_ en }
+  | [Atom "type"; n; deps; body; en; fs] ->
+      M.IType { M.t_name = nat_ n; M.t_deps = list_ nat_ deps; M.t_body = nat_ body; M.t_enum = bool_ en;
+                M.t_fields = list_ nat_ fs }
   | [Atom "noise"] -> M.INoise
   | _ -> failwith "item"
 let project_ s = list_ (pair_ nat_ (list_ item_)) s
@@ -28,11 +29,11 @@ let omega_ s = match list s with
   | _ -> failwith "omega"
 
 let of_decl = function
-  | M.DType (n, b) -> List [Atom "type"; of_nat n; of_nat b]
-  | M.DSchema (n, b) -> List [Atom "schema"; of_nat n; of_nat b]
+  | M.DType (n, b, fs) -> List [Atom "type"; of_nat n; of_nat b; of_list of_nat fs]
+  | M.DSchema (n, b, fs) -> List [Atom "schema"; of_nat n; of_nat b; of_list of_nat fs]
   | M.DInfer n -> List [Atom "infer"; of_nat n]
-  | M.DParams c -> List [Atom "params"; of_nat c]
-  | M.DPSchema c -> List [Atom "pschema"; of_nat c]
+  | M.DParams (c, ps, cs) -> List [Atom "params"; of_nat c; of_list of_nat ps; of_list of_nat cs]
+  | M.DPSchema (c, ps) -> List [Atom "pschema"; of_nat c; of_list of_nat ps]
   | M.DHooks -> List [Atom "hooks"]
   | M.DWrapper c -> List [Atom "wrapper"; of_nat c]
   | M.DListener (e, pay) -> List [Atom "listener"; of_nat e; of_nat pay]
@@ -55,7 +56,8 @@ let () =
     | [w; p] ->
         let v = M.c13_viz (omega_ w) (project_ p) in
         List [of_list of_nat v.M.v_cmds; of_list (of_pair of_nat (of_list of_nat)) v.M.v_types;
-              of_list of_nat v.M.v_nodes; of_list (of_pair of_nat of_nat) v.M.v_edges]
+              of_list of_nat v.M.v_nodes; of_list (of_pair of_nat of_nat) v.M.v_edges;
+              of_list (of_pair of_nat of_nat) v.M.v_chains]
     | _ -> failwith "c13-viz: bad case");
   Registry.register "classes" (fun s -> of_list of_bool (M.c13_classes (project_ s)));
   Registry.register "rel" (fun s ->
